@@ -18,16 +18,19 @@ type probe struct {
 	kind string
 	b    *iox.Buffer
 	s    *iox.OctetsStream
+	ss   *session
 }
 
-func newProbe(kind string) *probe { return &probe{kind: kind, b: &iox.Buffer{}, s: &iox.OctetsStream{}} }
+func newProbe(kind string) *probe {
+	return &probe{kind: kind, b: &iox.Buffer{}, s: &iox.OctetsStream{}, ss: &session{}}
+}
 
 func (p *probe) apply(op string) {
 	w := strings.Fields(op)
 	if p.kind == "buffer" {
-		bufOp(p.b, w)
+		bufOp(p.ss, p.b, w)
 	} else {
-		strOp(p.s, w)
+		strOp(p.ss, p.s, w)
 	}
 }
 
@@ -323,6 +326,216 @@ func countGrowBranch(c *hx.Ctx, op string, before [4]int, p *probe) {
 	}
 }
 
+// ---------------------------------------------------------------- large sizes
+
+// largeSizes: chunk / grow / read sizes around the page size, 64 KiB and beyond
+var largeSizes = []int{4095, 4096, 4097, 8192, 12000, 65535, 65536, 65537, 70000, 131072, 200000}
+
+const mib = 1 << 20
+
+func bigPayload(c *hx.Ctx, n int) string {
+	if n == 0 {
+		return "-"
+	}
+	return fmt.Sprintf("@%d:%d", n, c.Rng.Intn(256))
+}
+
+func pickLarge(c *hx.Ctx, allowMiB bool) int {
+	if allowMiB && c.Rng.Intn(12) == 0 {
+		return c.Rng.Pick([]int{mib - 1, mib, mib + 1})
+	}
+	n := c.Rng.Pick(largeSizes)
+	if c.Rng.Intn(4) == 0 {
+		n += c.Rng.Range(-3, 3)
+	}
+	return n
+}
+
+// remainders a drain aims at: what is left unread afterwards
+var remainders = []int{0, 1, 2, 63, 64, 65, 100, 4095, 4096, 4097}
+
+// largeSeq: a random op sequence whose writes / grows / reads have sizes around 4 KiB, 64 KiB, 200 000 and 1 MiB, mixed
+// with small ones; drains stop a few bytes before the end (0,1,2,63..65,100,4095..4097 left), Tidy / Grow / small writes
+// follow a drain with high probability, seeks go back into the already consumed region and are followed by reads,
+// Reset / full drain is followed by another large write.
+func largeSeq(c *hx.Ctx, kind string, allowMiB bool) string {
+	p := newProbe(kind)
+	n := c.Rng.Range(5, 22)
+	ops := make([]string, 0, n)
+	drained, seeked := false, false
+	for i := 0; i < n; i++ {
+		pos, total, unread, capacity := p.state()
+		var op string
+		r := c.Rng.Intn(100)
+		wsize := func() int {
+			switch c.Rng.Intn(10) {
+			case 0, 1:
+				return c.Rng.Pick(thresholds)
+			case 2:
+				return pickSize(c, []int{capacity - total, capacity - total + 1, capacity/2 - unread, capacity/2 - unread + 1}, 300)
+			}
+			return pickLarge(c, allowMiB)
+		}
+		rsize := func() int {
+			switch c.Rng.Intn(10) {
+			case 0:
+				return c.Rng.Pick(thresholds)
+			case 1, 2:
+				return pickLarge(c, allowMiB)
+			case 3:
+				return c.Rng.Range(0, unread+1)
+			}
+			k := unread - c.Rng.Pick(remainders)
+			if k < 0 {
+				k = unread
+			}
+			return k
+		}
+		back := func() string { // seek back into the consumed region (or anywhere valid), through any whence
+			t := 0
+			switch c.Rng.Intn(5) {
+			case 0:
+				t = 0
+			case 1:
+				t = pos - 1
+			case 2:
+				t = pos / 2
+			case 3:
+				t = c.Rng.Range(0, pos)
+			default:
+				t = c.Rng.Range(0, total)
+			}
+			if t < 0 {
+				t = 0
+			}
+			switch c.Rng.Intn(3) {
+			case 0:
+				return fmt.Sprintf("seek %d 0", t)
+			case 1:
+				return fmt.Sprintf("seek %d 1", t-pos)
+			}
+			return fmt.Sprintf("seek %d 2", t-total)
+		}
+		switch {
+		case seeked: // a seek is followed by a read
+			if kind == "buffer" && c.Rng.Bool() {
+				op = fmt.Sprintf("next %d", c.Rng.Pick([]int{1, 44, 100, 4096, unread, unread + 1}))
+			} else {
+				op = fmt.Sprintf("read %d", c.Rng.Pick([]int{1, 44, 100, 4096, 70000, unread, unread + 1}))
+			}
+			seeked = false
+		case drained && r < 55: // after a drain: compaction of some kind
+			switch q := c.Rng.Intn(10); {
+			case q < 5:
+				op = "tidy"
+			case q < 7 && kind == "buffer":
+				op = fmt.Sprintf("grow %d", wsize())
+			case q < 9:
+				op = "write " + bigPayload(c, c.Rng.Pick([]int{1, 3, 64, 100, 4096}))
+			default:
+				op = "write " + bigPayload(c, wsize())
+			}
+			drained = false
+		case r < 34 || total == 0:
+			op = "write " + bigPayload(c, wsize())
+		case r < 56:
+			k := rsize()
+			if kind == "buffer" && c.Rng.Intn(3) == 0 {
+				op = fmt.Sprintf("next %d", k)
+			} else {
+				op = fmt.Sprintf("read %d", k)
+			}
+			drained = k > 0 && unread-k <= 4097
+		case r < 74:
+			op = back()
+			seeked = true
+		case r < 80:
+			op = randomSeek(c, pos, total)
+		case r < 88:
+			op = "tidy"
+		case r < 92:
+			op = "reset"
+		case kind == "buffer":
+			op = fmt.Sprintf("grow %d", wsize())
+		case r < 96:
+			op = "rbyte"
+		default:
+			op = fmt.Sprintf("wi64 %d", int64(c.Rng.U64()))
+		}
+		before := [4]int{pos, total, unread, capacity}
+		p.apply(op)
+		if kind == "buffer" && (strings.HasPrefix(op, "write") || strings.HasPrefix(op, "grow")) {
+			countGrowBranch(c, op, before, p)
+		}
+		if _, _, u1, c1 := p.state(); kind == "buffer" && op == "tidy" && pos > 0 {
+			switch {
+			case c1 > 65536 && u1 <= 64 && u1 > 0:
+				c.Count("large_tidy_cap_gt_64k_unread_le_64")
+			case c1 > 65536:
+				c.Count("large_tidy_cap_gt_64k")
+			case c1 > 4096:
+				c.Count("large_tidy_cap_gt_4k")
+			}
+		}
+		if strings.HasPrefix(op, "write @") {
+			sz, _ := strconv.Atoi(strings.Split(op[7:], ":")[0])
+			switch {
+			case sz >= 4096 && unread == 0:
+				c.Count("large_write_ge_4k_into_empty")
+			case sz >= 4096 && pos > 0:
+				c.Count("large_write_ge_4k_with_consumed_prefix")
+			case sz >= 4096:
+				c.Count("large_write_ge_4k")
+			}
+		}
+		if strings.HasPrefix(op, "seek") {
+			if p1, _, _, _ := p.state(); p1 < pos {
+				c.Count("large_seek_back_into_consumed")
+			}
+		}
+		ops = append(ops, op)
+	}
+	return kind + " | " + strings.Join(ops, " ; ")
+}
+
+// largeTemplates: deterministic skeletons over every large size (class coverage independent of the seed):
+// fill - drain to a small remainder - compact - read; consume a prefix - large write - seek back - read; large write into a
+// fresh / reset / drained object followed by more writes.
+func largeTemplates(c *hx.Ctx, kind string, sizes []int, light bool) {
+	emit := func(class string, ops ...string) {
+		c.Emit("%s | %s", kind, strings.Join(ops, " ; "))
+		c.Count(class)
+	}
+	rd := "read"
+	for i, s := range sizes {
+		seed := (37*i + 11) % 256
+		big := fmt.Sprintf("@%d:%d", s, seed)
+		big2 := fmt.Sprintf("@%d:%d", s, (seed+101)%256)
+		rems, pres := []int{0, 1, 64, 65, 4096}, []int{1, 44, 100, 4096}
+		if light { // one representative per skeleton (the 1 MiB lines of the quick tier)
+			rems, pres = []int{1}, []int{44}
+		}
+		for _, rem := range rems {
+			if rem >= s {
+				continue
+			}
+			// fill, drain to `rem`, compact, read the rest, write again
+			emit(kind+"_large_drain_tidy", "write "+big, fmt.Sprintf("%s %d", rd, s-rem), "tidy", "read 100", "write 0a0b0c", "read 100000")
+			if kind == "buffer" {
+				emit(kind+"_large_drain_grow", "write "+big, fmt.Sprintf("next %d", s-rem), fmt.Sprintf("grow %d", s), "write "+big2, "tidy", "next 70", fmt.Sprintf("read %d", 2*s))
+			}
+		}
+		for _, pre := range pres {
+			// consume a prefix, large write, seek back into the prefix, read across the boundary
+			emit(kind+"_large_prefix_write_seekback", fmt.Sprintf("write #%d:7", 2*pre), fmt.Sprintf("read %d", pre), "write "+big, "seek 0 0",
+				fmt.Sprintf("read %d", pre), fmt.Sprintf("seek %d 1", -pre/2-1), fmt.Sprintf("read %d", 3*pre), "tidy", fmt.Sprintf("read %d", s))
+		}
+		// large write into a fresh object, after a Reset and after a full drain; each followed by further writes
+		emit(kind+"_large_into_empty", "write "+big, "write 0102", fmt.Sprintf("read %d", s/2), "reset", "write "+big2, "write "+big,
+			fmt.Sprintf("read %d", 2*s), "write "+big2, "write 0304", fmt.Sprintf("read %d", s+1), "read 5")
+	}
+}
+
 // mix64: SplitMix64 finaliser. hx.NewRng(seed) starts the Weyl sequence at seed*G, so consecutive seeds would yield the
 // same stream shifted by one draw; seeding with a mixed value makes the streams of different VERIF_SEEDs unrelated.
 func mix64(z uint64) uint64 {
@@ -352,6 +565,19 @@ func gen(c *hx.Ctx) {
 	for i, n := 0, c.Budget(1500, 25000); i < n; i++ {
 		c.Emit("%s", randomSeq(c, "stream", 60, false))
 		c.Count("stream_random")
+	}
+	// large sizes (4 KiB .. 1 MiB): deterministic skeletons + random sequences
+	for _, kind := range []string{"buffer", "stream"} {
+		if c.Thorough() {
+			largeTemplates(c, kind, append(append([]int{}, largeSizes...), mib-1, mib, mib+1), false)
+		} else {
+			largeTemplates(c, kind, largeSizes, false)
+			largeTemplates(c, kind, []int{mib}, true)
+		}
+		for i, n := 0, c.Budget(200, 1500); i < n; i++ {
+			c.Emit("%s", largeSeq(c, kind, i%c.Budget(10, 3) == 0)) // 1 MiB chunks only in every 10th / 3rd sequence (model run time)
+			c.Count(kind + "_large_random")
+		}
 	}
 	// off the property's domain (negative Next/Grow sizes): model fidelity of the panic outcomes only
 	for i, n := 0, c.Budget(300, 3000); i < n; i++ {
